@@ -74,11 +74,16 @@ Definition rnArms (B : list name) : list (pat * expr) -> list name :=
   fix go (arms : list (pat * expr)) : list name :=
     match arms with [] => [] | (p, b) :: r => rn (pat_names p ++ B) b ++ go r end.
 
+Section Dbc.
+(* mutl: the outer variables allowed to differ between the two stores (Lang/FreezeRel.v); an identifier
+   that freeze keeps (it is in the bound set) must not be one of them.  Empty for plain preservation. *)
+Variable mutl : list name.
+
 Inductive dbc : (name -> Prop) -> list name -> expr -> Prop :=
 | DNull D B : dbc D B ENull
 | DInt D B z : dbc D B (EInt z)
 | DStr D B s : dbc D B (EStr s)
-| DVar D B x : dbc D B (EVar x)
+| DVar D B x : (mem x B = true -> mem x mutl = false) -> dbc D B (EVar x)
 | DUnd D B : dbc D B EUnderscore
 | DFrozen D B v : noclos v = true -> dbc D B (EFrozen v)
 | DSeq D B es : dbcL D B es -> dbc D B (ESeq es)
@@ -119,11 +124,12 @@ with dbcArms : (name -> Prop) -> list name -> list (pat * expr) -> Prop :=
 
 (* at the top: no enclosing scope inside the frozen expression *)
 Definition declared_before_captured (B : list name) (e : expr) : Prop := dbc (fun _ => False) B e.
+End Dbc.
 
 (* F21: the closure g mentions `a`, which its enclosing lambda body declares later *)
-Example f21_not_dbc : ~ declared_before_captured [] (ECall f21_body [EInt 8]).
+Example f21_not_dbc : forall mutl, ~ declared_before_captured mutl [] (ECall f21_body [EInt 8]).
 Proof.
-  unfold declared_before_captured, f21_body. intro H.
+  intros mutl. unfold declared_before_captured, f21_body. intro H.
   inversion H as [| | | | | | | | | | | | | | | | D0 B0 f0 args0 Hf Ha | | |]; subst.
   inversion Hf as [| | | | | | | | | | | | | | | D1 B1 ps1 b1 _ Hb | | | |]; subst.
   inversion Hb as [| | | | | | D2 B2 es2 Hs | | | | | | | | | | | | |]; subst.
